@@ -436,7 +436,7 @@ func (c *ctxConn) Read(b []byte) (n int, err error) {
 func (c *ctxConn) Write(b []byte) (n int, err error) {
 	for {
 		if err = c.writeCtx.Err(); err != nil {
-			return 0, err
+			return n, err
 		}
 
 		deadline := time.Now().Add(c.writeTimeout)
@@ -450,12 +450,15 @@ func (c *ctxConn) Write(b []byte) (n int, err error) {
 			return 0, err
 		}
 
-		n, err = c.conn.Write(b)
+		var nw int
+		nw, err = c.conn.Write(b[n:])
+		n += nw
 		if err != nil {
 			if netErr, ok := err.(net.Error); ok && netErr.Timeout() && netErr.Temporary() {
+				// resume after the bytes that were already written
 				continue
 			}
-			return 0, err
+			return n, err
 		}
 
 		return n, nil
